@@ -516,7 +516,8 @@ def _tucker_run(X, case, init, maxiters, stoptol, printitn):
 def hooi_margin(A, Uinit, rank, dimorder, sweeps):
     """NumPy replay of the alternating sweeps from the start actually used; returns the smallest lambda_r / lambda_1 met
     among the Gram matrices whose r leading eigenvectors are requested.  ~0 means that some requested column is an
-    arbitrary null-space vector (degenerate request: two runs may differ), whatever the static rank test says."""
+    arbitrary null-space vector (degenerate request: two runs may differ), whatever the static rank test says; 0 is also
+    returned when lambda_r and lambda_{r+1} tie to 1e-10 lambda_1 (the leading subspace is then not unique)."""
     N = A.ndim
     U = [None if u is None else np.asarray(u, dtype=float) for u in Uinit]
     m = 1.0
@@ -533,6 +534,11 @@ def hooi_margin(A, Uinit, rank, dimorder, sweeps):
             if w[0] <= 0:
                 return 0.0
             m = min(m, float(w[r - 1] / w[0]))
+            if r < len(w):
+                # an exact tie lambda_r = lambda_{r+1} (integer-valued data produce them) leaves the leading subspace
+                # itself undetermined: reported like a vanishing eigenvalue
+                if (w[r - 1] - w[r]) <= 1e-10 * w[0]:
+                    return 0.0
             if m < 1e-12:
                 return m
             U[n] = v[:, :r]
